@@ -78,12 +78,14 @@ class Operator(Token):
         return self._precedences[self.name]
 
     def update_name(self, tokens, stack):
-        if self.name in '-+':
+        if self.name in '-+%':
             from .operand import Operand
             t = tokens[max(tokens.index(self) - 1, 0)]
             b = isinstance(t, Parenthesis) and t.has_end
-            b |= isinstance(t, Operator) and t.name == '%'
+            b |= isinstance(t, Operator) and t.name == '%' and t is not self
             if not (b or isinstance(t, Operand)):
+                if self.name == '%':  # Postfix without operand.
+                    raise FormulaError()
                 self.attr['name'] = 'u%s' % self.name
                 _update_n_args(stack)
 
